@@ -111,6 +111,39 @@ impl VGraph {
         }
     }
 
+    /// Like [`VGraph::new`], with a lookup type per node: `Some((true, t))` makes the node a
+    /// GPOS lookup of lookup type `t`, `Some((false, t))` a GSUB lookup, `None` a mock table.
+    pub fn new_typed(specs: &[NodeSpec], types: &[Option<(bool, u16)>], root: usize) -> VGraph {
+        let mut vg = VGraph::new(specs, root);
+        for (id, ty) in vg.ids.clone().into_iter().zip(types) {
+            if let Some((is_gpos, t)) = ty {
+                let data = vg.graph.objects.get_mut(&ObjectId(id)).unwrap();
+                data.type_ = if *is_gpos {
+                    TableType::GposLookup(*t)
+                } else {
+                    TableType::GsubLookup(*t)
+                };
+            }
+        }
+        vg
+    }
+
+    /// `get_promotable_subtables` + `select_promotions_hb`, read only:
+    /// (parent, candidates, selected), or `None` if nothing is promotable.
+    pub fn select_promotions(&self) -> Option<(u64, Vec<u64>, Vec<u64>)> {
+        let (can_promote, parent_id) = self.graph.get_promotable_subtables()?;
+        let to_promote = self.graph.select_promotions_hb(&can_promote, parent_id);
+        Some((
+            parent_id.0,
+            can_promote.iter().map(|id| id.0).collect(),
+            to_promote.iter().map(|id| id.0).collect(),
+        ))
+    }
+
+    pub fn try_promoting_subtables(&mut self) {
+        self.graph.try_promoting_subtables()
+    }
+
     /// The graph `dump_table` would build for this table (before packing).
     pub fn from_table(table: &impl FontWrite) -> VGraph {
         let graph = TableWriter::make_graph(table);
